@@ -284,7 +284,7 @@ var confirmedBounds = map[string]boundsRow{
 	"(*compile.compiler).Expr|node.Ops[i]":               {1, "i ranges over node.Ops"},
 	"(*compile.compiler).Expr|node.Keys[i]":              {1, "i ranges over node.Keys"},
 	"(*compile.compiler).Expr|node.Values[i]":            {1, "i ranges over node.Keys and the arm first checks len(Keys) == len(Values)"},
-	"(*compile.compiler).compileFunc|Args.KwDefaults[i]": {1, "i ranges over Args.KwDefaults"},
+	"(*compile.compiler).compileFunc|Args.KwDefaults[i]": {2, "i ranges over Args.KwDefaults (nil test and the emitted default)"},
 	"(*compile.compiler).compileFunc|Args.Kwonlyargs[i]": {1, "i ranges over Args.KwDefaults after the check len(KwDefaults) <= len(Kwonlyargs)"},
 	"(*compile.compiler).importFrom|names[i]":            {1, "names was made with len(node.Names) and i ranges over node.Names"},
 	"(*compile.compiler).makeClosure|code.Freevars[i]":   {1, "i ranges over code.Freevars"},
